@@ -222,4 +222,69 @@ theorem addAt_nonempty (nan : String) : ∀ (n : Nat) (c : List (List String)), 
     · exact h _ (List.mem_cons_self ..)
     · exact addAt_nonempty nan n t (fun g' hg' => h g' (List.mem_cons_of_mem _ hg')) g hg
 
+/-! ### sums of the target, label by label -/
+
+/-- sum of the target over the rows whose modality satisfies `p` -/
+def sumWhere (p : String → Bool) : List String → List Rat → Rat
+  | c :: col, v :: y => (if p c then v else 0) + sumWhere p col y
+  | _, _ => 0
+
+theorem fold_rows_s (t : List (String × Row)) (grp : List String) (acc : Row) :
+    (grp.foldl (fun acc x => acc.add (lookupRow t x)) acc).s = acc.s + (grp.map (fun x => (lookupRow t x).s)).sum := by
+  induction grp generalizing acc with
+  | nil => simp [Rat.add_zero]
+  | cons x g ih =>
+    rw [List.foldl_cons, ih]
+    simp only [Row.add, List.map_cons, List.sum_cons]
+    grind
+
+theorem sumWhere_congr (p q : String → Bool) : ∀ (col : List String) (y : List Rat), (∀ c ∈ col, p c = q c) →
+    sumWhere p col y = sumWhere q col y
+  | [], _, _ => by simp [sumWhere]
+  | _ :: _, [], _ => by simp [sumWhere]
+  | c :: col, v :: y, h => by
+    simp only [sumWhere, h c (List.mem_cons_self ..)]
+    rw [sumWhere_congr p q col y (fun c' hc' => h c' (List.mem_cons_of_mem _ hc'))]
+
+theorem sumWhere_false : ∀ (col : List String) (y : List Rat), sumWhere (fun _ => false) col y = 0
+  | [], _ => by simp [sumWhere]
+  | _ :: _, [] => by simp [sumWhere]
+  | c :: col, v :: y => by simp [sumWhere, sumWhere_false col y, Rat.add_zero]
+
+theorem sumWhere_or (p q : String → Bool) (hd : ∀ c, ¬ (p c = true ∧ q c = true)) : ∀ (col : List String) (y : List Rat),
+    sumWhere (fun c => p c || q c) col y = sumWhere p col y + sumWhere q col y
+  | [], _ => by simp [sumWhere, Rat.add_zero]
+  | _ :: _, [] => by simp [sumWhere, Rat.add_zero]
+  | c :: col, v :: y => by
+    simp only [sumWhere, sumWhere_or p q hd col y]
+    have := hd c
+    by_cases hp : p c = true
+    · have hq : q c = false := by
+        cases h : q c
+        · rfl
+        · exact absurd ⟨hp, h⟩ this
+      simp only [hp, hq, Bool.or_false, if_true, Bool.false_eq_true, if_false]; grind
+    · have hp' : p c = false := by simpa using hp
+      by_cases hq : q c = true
+      · simp only [hp', hq, Bool.or_true, if_true, Bool.false_eq_true, if_false]; grind
+      · have hq' : q c = false := by simpa using hq
+        simp only [hp', hq', Bool.or_false, Bool.false_eq_true, if_false]; grind
+
+/-- the target summed over the rows of a group, modality by modality -/
+theorem sum_sumWhere_group (col : List String) (y : List Rat) : ∀ (grp : List String), grp.Nodup →
+    (grp.map (fun x => sumWhere (fun c => c == x) col y)).sum = sumWhere (fun c => grp.contains c) col y
+  | [], _ => by simp [sumWhere_false]
+  | x :: g, hnd => by
+    have hx : x ∉ g := (List.nodup_cons.1 hnd).1
+    rw [List.map_cons, List.sum_cons, sum_sumWhere_group col y g (List.nodup_cons.1 hnd).2]
+    rw [← sumWhere_or (fun c => c == x) (fun c => g.contains c)]
+    · apply sumWhere_congr
+      intro c _
+      show (c == x || g.contains c) = (x :: g).contains c
+      rw [List.contains_cons]
+    · intro c ⟨h1, h2⟩
+      have : c = x := by simpa using h1
+      subst this
+      exact hx (by simpa using h2)
+
 end RowLemmas
